@@ -14,8 +14,10 @@ import (
 	"sync"
 	"time"
 
+	"deps.dev/util/resolve"
 	scalibr "github.com/google/osv-scalibr"
 	"github.com/google/osv-scalibr/clients/datasource"
+	"github.com/google/osv-scalibr/clients/resolution"
 	"github.com/google/osv-scalibr/extractor/filesystem"
 	scalibrfs "github.com/google/osv-scalibr/fs"
 	"github.com/google/osv-scalibr/guidedremediation"
@@ -173,17 +175,42 @@ func longScanSlowHook() int {
 	return 1
 }
 
+// lazyClientHammer: many goroutines make the first use of a fresh combined native client at once.
+func lazyClientHammer(rounds int) int {
+	for r := 0; r < rounds; r++ {
+		c, _ := resolution.NewCombinedNativeClient(resolution.CombinedNativeClientOptions{PyPIRegistry: "http://127.0.0.1:1/"})
+		var wg sync.WaitGroup
+		got := make([]resolve.Client, 8)
+		for i := 0; i < 8; i++ {
+			wg.Add(1)
+			go func() {
+				defer wg.Done()
+				got[i], _ = c.VerifClientForSystem(resolve.PyPI)
+			}()
+		}
+		wg.Wait()
+		for i := 1; i < 8; i++ {
+			if got[i] != got[0] {
+				fmt.Fprintln(os.Stderr, "lazy client: two instances in the free-running pass")
+			}
+		}
+	}
+	return rounds
+}
+
 func main() {
 	scankit.Quiet()
 	thorough := os.Getenv("VERIF_TIER") == "thorough"
 	n := 0
 	if thorough {
 		n += cacheHammer(3000)
+		n += lazyClientHammer(2000)
 		n += patches(150)
 		n += longScan()
 		n += longScan()
 	} else {
 		n += cacheHammer(300)
+		n += lazyClientHammer(200)
 		n += patches(15)
 		n += longScan()
 	}
